@@ -27,6 +27,16 @@ returned as the decimal value of their 64 bits.
                                                Q!<x>
                                              answers joined by `|`: `trained` after a training, `p=<vec>~J=<rows>`
                                              after a query (`untrained` before the first training)
+  moe d=<n> dout=<n> tin=<spec> tout=<spec> K=<n> hard=<0/1> ops=<op>|<op>|…
+                                             a trained mixture of experts whose public attribute `hard` is assigned
+                                             between queries; `hard` = the value given to the constructor; operations
+                                               H!<0/1>                                    assignment of `hard`
+                                               Q!<x>!<class>!<probabilities>!<E>!<EJ>     query; the values of the
+                                                 (unmodelled) classifier and local models at the transformed point:
+                                                 predicted class, class probabilities, E = rows of the K local
+                                                 predictions, EJ = the K local Jacobians separated by `&`
+                                             answers joined by `|`: `set` after an assignment, `p=<vec>~J=<rows|_>`
+                                             after a query (`_`: no Jacobian offered with the soft formula)
 Pipeline spec: `E` (empty) or steps joined by `+`:
   A:<coef>:<off>   fitted scaler          L:<mean>:<rows of W>   fitted linear reduction
   C:<coef>:<off>   Scaler to fit (one value is broadcast)        M   MinMaxScaler to fit
@@ -256,6 +266,56 @@ def answerSess (toks : List String) : String :=
       "|".intercalate (go s0 ops [])
   | _, _, _ => "bad-line"
 
+/-- One operation of a `moe` line: an assignment, or a query with the observed values of the classifier
+    and of the local models at the transformed query point. -/
+inductive MoeTok where
+  | set (b : Bool)
+  | query (x : List Rat) (cls : Nat) (proba : List Rat) (e : List (List Rat)) (ej : List (List (List Rat)))
+
+def parseMoeTok? (s : String) : Option MoeTok :=
+  match s.splitOn "!" with
+  | ["H", b] => if b = "1" then some (MoeTok.set true) else if b = "0" then some (MoeTok.set false) else none
+  | ["Q", x, c, pr, e, ej] => do
+      let x ← parseRatList? x; let c ← c.toNat?; let pr ← parseRatList? pr
+      let e ← parseMat? e; let ej ← (ej.splitOn "&").mapM parseMat?
+      some (MoeTok.query x c pr e ej)
+  | _ => none
+
+def blankMoe (tin tout : List (Step Rat)) (K : Nat) (hard : Bool) : Moe Rat :=
+  ⟨tin, tout, K, fun _ _ _ => 0, fun _ _ _ _ => 0, fun _ => 0, fun _ _ => 0, hard⟩
+
+/-- The state `m` (transformers, number of clusters, current `hard`) with the observed values of the
+    classifier and of the local models at the query point. -/
+def observedMoe (m : Moe Rat) (c : Nat) (pr : List Rat) (e : List (List Rat))
+    (ej : List (List (List Rat))) : Moe Rat :=
+  ⟨m.tin, m.tout, m.K, fun k _ => vecOf (e.getD k []), fun k _ => matOf (ej.getD k []),
+    fun _ => c, fun _ k => pr.getD k 0, m.hard⟩
+
+def answerMoe (toks : List String) : String :=
+  match (kv toks "d").bind String.toNat?, (kv toks "dout").bind String.toNat?,
+        (kv toks "tin").bind fittedPipe?, (kv toks "tout").bind fittedPipe?,
+        (kv toks "K").bind String.toNat?, kv toks "hard", kv toks "ops" with
+  | some d, some dout, some tin, some tout, some K, some h0, some ops =>
+    match (ops.splitOn "|").mapM parseMoeTok? with
+    | none => "bad-ops"
+    | some ops =>
+      -- the state carried from one operation to the next is the model's: only `hard` can change
+      let blank : Moe Rat := blankMoe tin tout K (h0 = "1")
+      let rec go (m : Moe Rat) (ops : List MoeTok) (acc : List String) : List String :=
+        match ops with
+        | [] => acc.reverse
+        | MoeTok.set b :: rest => go (Moe.step d dout m (MOp.setHard b)).1 rest ("set" :: acc)
+        | MoeTok.query x c pr e ej :: rest =>
+          let mq : Moe Rat := observedMoe m c pr e ej
+          let (m', out) := Moe.step d dout mq (MOp.query (vecOf x))
+          let txt := match out with
+            | some (p, some J) => s!"p={showRatList (listOf dout p)}~J={showMat (rowsOf dout d J)}"
+            | some (p, none) => s!"p={showRatList (listOf dout p)}~J=_"
+            | none => "bad-step"
+          go m' rest (txt :: acc)
+      "|".intercalate (go blank ops [])
+  | _, _, _, _, _, _, _ => "bad-line"
+
 def answer (line : String) : String :=
   match tokens line with
   | "der" :: rest =>
@@ -293,6 +353,7 @@ def answer (line : String) : String :=
   | "split" :: rest => answerSplit rest
   | "sur" :: rest => answerSur rest
   | "sess" :: rest => answerSess rest
+  | "moe" :: rest => answerMoe rest
   | _ => "bad-op"
 
 def main : IO Unit := driverLoop (fun (_ : Unit) line => ((), answer line)) ()
